@@ -28,6 +28,11 @@ Definition literal_decimal (v : Z) : res Z :=
   let V := v * c_DECIMAL_DIVISOR in
   if (c_MINDECIMAL <=? V) && (V <=? c_MAXDECIMAL) then Ok V else Err Raised.
 
+(* _literal_decimal for a hex literal of m bytes: the number, sign-extended (decimal is signed), bounds-checked *)
+Definition literal_decimal_hex (m val : Z) : res Z :=
+  v <- unsigned_to_signed val (8 * m) false ;;
+  if (c_MINDECIMAL <=? v) && (v <=? c_MAXDECIMAL) then Ok v else Err Raised.
+
 Definition src_of (l : lit) : csrc :=
   match l with LInt v => SInt v | LDec V => SDec V | LHex m val => SBytesM m val | LBool b => SBool b end.
 
